@@ -38,6 +38,23 @@ def resolves_from_receiver(fi, p):
     return False
 
 
+def branch_context(node):
+    """'<test> [true|false]' of the innermost if-statement branch that contains node ('' at function level)"""
+    child = node
+    p = getattr(node, '_parent', None)
+    while p is not None and not isinstance(p, (ast.FunctionDef, ast.AsyncFunctionDef)):
+        if isinstance(p, ast.If):
+            if any(child is b for b in p.body):
+                return '%s [true]' % ast.unparse(p.test)[:80]
+            if any(child is b for b in p.orelse):
+                return '%s [false]' % ast.unparse(p.test)[:80]
+        if isinstance(p, ast.ExceptHandler):
+            return 'except %s' % (ast.unparse(p.type) if p.type is not None else '')
+        child = p
+        p = getattr(p, '_parent', None)
+    return ''
+
+
 def value_in_scope(te, fn, names, self_attrs=True):
     """how the caller can name a value for the context parameter: 'name' | 'self' | None"""
     f = fn
@@ -95,7 +112,10 @@ def check_forwarding(chk, c, rule, params, scope_names=None, exempt=None, only_c
                     n += 1
                     construct = '%s -> %s(%s=)' % (fq, t.func.qualname, P)
                     where = '%s:%d' % (s.fn.module.relpath, s.lineno)
+                    bctx = branch_context(s.node)
                     fkey = '%s|%s|%s|%s' % (rule, fq, t.func.qualname, P)
+                    if bctx:
+                        fkey += '|under ' + bctx
                     if P in b or P in kk or stars:
                         chk.ok(rule, construct, '', where, key=fkey + '|' + s.label)
                         continue
@@ -110,9 +130,12 @@ def check_forwarding(chk, c, rule, params, scope_names=None, exempt=None, only_c
                     if ek not in exempt and (ek[0], '*', ek[2]) in exempt:
                         ek = (ek[0], '*', ek[2])
                     if ek in exempt:
-                        used_exempt.add(ek)
-                        chk.ok(rule, construct, 'exempt: ' + exempt[ek], where, key=fkey + '|' + s.label)
-                        continue
+                        ex = exempt[ek]
+                        reason, pred = ex if isinstance(ex, tuple) else (ex, None)
+                        if pred is None or pred(s.node, bctx):
+                            used_exempt.add(ek)
+                            chk.ok(rule, construct, 'exempt: ' + reason, where, key=fkey + '|' + s.label)
+                            continue
                     chk.fail(rule, construct,
                              'call `%s(...)` does not pass %s although the caller has it in scope (%s); the callee '
                              'falls back to a process-wide default / the standard structure' % (s.label, P, sc),
